@@ -19,7 +19,21 @@ def summarize(ms):
     return [(m.n_atoms, getattr(m, "n_bonds", 0), [int(a.element) for a in m.atoms], np.round(m.coords, 5).tolist()) for m in ms]
 
 
+def is_num(t):
+    try:
+        float(t)
+        return True
+    except ValueError:
+        return False
+
+
 def damaged(lines, kind, k):
+    if isinstance(kind, tuple):          # ("token", token index, replacement)
+        toks = lines[k].split()
+        if kind[1] >= len(toks) or (kind[2] == "7" and is_num(toks[kind[1]])):
+            return lines
+        toks[kind[1]] = kind[2]
+        return lines[:k] + [" ".join(toks) + "\n"] + lines[k + 1:]
     if kind == "truncate":
         return lines[:k]
     if kind == "delete":
@@ -61,7 +75,9 @@ for fmt in ([w.get("format")] if w.get("format") else ["mol2", "xyz"]):
     ref = summarize(getattr(ml.Molecule, f"loads_all_{fmt}")(text))
     n = len(text.splitlines())
     per = n // e.n_conformers
-    if search or w.get("kind") is None:
+    if w.get("kind") == "token":
+        fam = [(("token", j, new), k) for k in range(0, min(n, per)) for j in range(0, 10) for new in ("Xq", "7", "-1.5e", "??", "Q7")]
+    elif search or w.get("kind") is None:
         fam = [(kd, k) for kd in ("truncate", "delete", "duplicate") for k in range(0, min(n, 3 * per))]
     else:
         # map the witness line (in a 2-molecule file of nlines lines) to the same relative position in the real file
